@@ -240,8 +240,9 @@ CkptFrom(n, p, v, bmaj, nd) ==
   ELSE {<<<<DPtn(v), n, p>>, nd>>} \cup UNION {CkptSet(n, q, nd.refs[q], bmaj) : q \in DOMAIN nd.refs}
 CkptSet(n, p, v, bmaj) == IF CkptSkips(v, bmaj) THEN {} ELSE CkptFrom(n, p, v, bmaj, StoreGet(n, p, v))
 \* pruner.checkpointTries: main tries always; a storage-like trie only if its root version is >= base
+StorageUnchanged(rv, bmaj) == rv.maj < bmaj      \* pruner.newStorageTrieIfUpdated: meta.StorageMajorVer >= base
 CkptAll(t, bmaj) ==
-  UNION {IF rootv[n][t] = NoVer \/ (n \notin Main /\ rootv[n][t].maj < bmaj) THEN {}
+  UNION {IF rootv[n][t] = NoVer \/ (n \notin Main /\ StorageUnchanged(rootv[n][t], bmaj)) THEN {}
          ELSE CkptSet(n, <<>>, rootv[n][t], bmaj) : n \in Names}
 AsFun(S) == [k \in {e[1] : e \in S} |-> (CHOOSE e \in S : e[1] = k)[2]]
 
